@@ -50,6 +50,9 @@ CHECKS = {
  "C15": ("runtime monitor: truth-by-construction oracle (perturbation / permutation / rotation positives; typed, structural and displacement negatives) + symmetry check",
          "For base geometries of all eight types, derived partners with a known truth value are compared in both directions: true for <0.9 tol perturbations combined with documented reorderings and ring rotations; false for other types, inserted/deleted members (incl. empty ones) or vertices, reversed line strings, single-vertex displacements > tol; g.Similar(h) must equal h.Similar(g) always.",
          "Members separated by >> tol, closed rings with a unique anchor vertex (domain restrictions stated by the property).", "§4 C15"),
+ "C18": ("runtime monitor: sequential least-fixpoint reference model + schedule exploration through hooked schedule points (free GOMAXPROCS sweep, perturbation, forced adversarial windows) + Go race detector",
+         "Generated OSM documents (any element order, shared nodes, relation chains and cycles, dangling references) are extracted with KeepTags/KeepBounds/KeepAll under ~12 schedules each (GOMAXPROCS 1/2/4/16 free, hook-driven yields/sleeps, and forced windows that hold a referent's store until its dependant has been judged); every result must equal the least closed set computed by a sequential model, pass Check() unless the document dangles, be identical across runs; Filter must equal the model on its input, be idempotent, a subset and closed. The same workload runs under -race and reports in geom/encoding/osm are violations. Thorough adds the bundled Honolulu PBF against a model built from a direct scan.",
+         "Needs hook H2 (schedule points, build tag verif). Schedules are sampled/forced, not exhausted; the evidence reports distinct hook traces and how many runs actually contained the window.", "§4 C18"),
  "C19": ("runtime monitor: harness graph model + Dijkstra as oracle over generated link networks",
          "Networks of 2-300 nodes (trees, grids with diagonals, two components, cheap-detour and fast-ring configurations; bendy links, speeds over two decades, random insertion order/orientation) are queried for Distance and Time; start/end nodes must be the true nearest nodes, returned links must chain from start to end node, totals must equal the sums over the returned links, the chosen cost must equal the harness Dijkstra optimum (1e-9), disconnected pairs give an empty route.",
          "No self loops or parallel links; queries with an ambiguous nearest node are skipped; returned links are identified by slice identity.", "§4 C19"),
